@@ -262,7 +262,10 @@ def check(run):
                    "Python int()/chr() semantics: int(str, base) raises only ValueError; chr(i) raises OverflowError outside C int, "
                    "ValueError outside range(0x110000)",
                    "the harness's wiki database double (production interface of nuwiki.Adapt over a dict of pages)",
-                   "CPU time as reported by time.process_time / ITIMER_VIRTUAL"]
+                   "CPU time as reported by time.process_time / ITIMER_VIRTUAL",
+                   "pass loop models: abstraction of tokens to the kinds the loops branch on; functional encoding of two aliasing sites "
+                   "(the open-section stack of ParseSections, the styles list of ParseSingleQuote); compute_path as a parameter of the "
+                   "ParseSingleQuote model (replayed in call order in the tie) — all covered by the differential runs"]
     run.assumptions = ["inputs are sequences of Unicode scalar values (no lone surrogates in the raw text), length <= 400 (quick) / 5000 (thorough); "
                        "the deterministic quote-run lines are up to 660 characters in both tiers",
                        "syntactic nesting <= 40, of the raw text and of the text after template expansion (deeper nesting exhausts the interpreter "
@@ -405,6 +408,10 @@ def proofs(run, src):
             len(cases), dis)
     run.coverage["compute_path_cases_with_pruning"] = pruned
     run.coverage["compute_path_max_states_per_step_real"] = maxwork
+    # ---- ties 3-7: the index-walking loops of five refinement passes, real vs extracted loop models (coq/C01/Passes.v)
+    from vt.harness import c01_passtie
+    pres = c01_passtie.tie(run, src)
+    run.coverage["pass_loop_ties"] = {nm: {k: v for k, v in r.items() if k != "disagreement_list"} for nm, r in pres.items()}
 
 
 def replay(obj):
